@@ -40,6 +40,10 @@ class Concrete(object):
             self.cname = {"A": "PID_8", "B": "PID_3", "C": "PID_5", "Z": "NK1_2"}
             self.lay = {"kind": "slots", "prefix": cps("PID"), "sep": 124, "rep": 126, "n": 8,
                         "slots": [["A", 8], ["B", 3], ["C", 5]]}
+        elif kind == "zseg":       # an open-ended segment: every index is a field
+            self.cname = {"A": "ZIN_2", "B": "ZIN_5", "C": "ZIN_9", "Z": "NK1_2"}
+            self.lay = {"kind": "slots", "prefix": cps("ZIN"), "sep": 124, "rep": 126, "n": 9,
+                        "slots": [["A", 2], ["B", 5], ["C", 9]]}
         elif kind == "grp":
             self.cname = {"A": "IN1", "B": "IN3", "C": "ROL", "Z": "PID_1"}
             if strict:
@@ -54,11 +58,13 @@ class Concrete(object):
         from hl7apy.core import Segment, Group
         if self.kind == "seg":
             return Segment("PID", version=self.version, validation_level=self.lvl)
+        if self.kind == "zseg":
+            return Segment("ZIN", version=self.version, validation_level=self.lvl)
         return Group("ADT_A01_INSURANCE", version=self.version, validation_level=self.lvl)
 
     def text(self, n, v):
         """concrete text assigned for abstract value v under name n"""
-        if self.kind == "seg":
+        if self.kind in ("seg", "zseg"):
             return v
         return self.cname[n] + ("|" + v if v else "")
 
@@ -69,7 +75,7 @@ class Concrete(object):
             f = Field("PID_1", version=self.version, validation_level=lvl)
             f.value = v
             return f
-        if self.kind == "seg":
+        if self.kind in ("seg", "zseg"):
             f = Field(self.cname[n], version=self.version, validation_level=lvl)
             if v:
                 f.value = v
@@ -80,13 +86,13 @@ class Concrete(object):
         return s
 
     def add_new(self, P, n):
-        if self.kind == "seg":
+        if self.kind in ("seg", "zseg"):
             return P.add_field(self.cname[n])
         return P.add_segment(self.cname[n])
 
     def absval(self, child):
         t = child.to_er7()
-        if self.kind == "seg":
+        if self.kind in ("seg", "zseg"):
             return t
         nm = child.name or ""
         if child.classname == "Field":
@@ -288,12 +294,16 @@ class World(object):
 
 
 def c_deep_chain(c, n):
+    if c.kind == "zseg":
+        return {"A": ["st"], "B": ["st"], "C": ["st"]}[n]
     if c.kind == "seg":
         return {"A": ["is"], "B": ["cx_4", "hd_2"], "C": ["xpn_1", "fn_1"]}[n]
     return {"A": ["in1_2", "ce_1"], "B": ["in3_2", "cx_4", "hd_2"], "C": ["rol_4", "xcn_2", "fn_1"]}[n]
 
 
 def c_long_name(c, n):
+    if c.kind == "zseg":
+        return c.cname[n].lower()
     if c.kind == "seg":
         return {"A": "administrative_sex", "B": "patient_identifier_list", "C": "patient_name"}[n]
     return c.cname[n].lower()
@@ -545,6 +555,8 @@ def explore(ctx, focus, kinds, versions, stricts, size):
             ctx.extra["simulated_walks"] += nw
         rnd.shuffle(jobs)
         for kind in kinds:
+            if kind == "zseg" and strict:
+                continue      # a Z segment has no cardinalities to enforce: the strict reference does not apply
             for version in versions:
                 chunks = [(kind, version, strict, jobs[k::32], bool(rops), size.get("only", "all")) for k in range(32)]
                 for part, steps, errors in pmap(_replay_chunk, chunks):
@@ -605,7 +617,7 @@ def signature(e, clause):
     return sig
 
 
-def run_property(ctx, focus, size_quick, size_thorough, kinds=("seg", "grp")):
+def run_property(ctx, focus, size_quick, size_thorough, kinds=("seg", "grp", "zseg")):
     size = size_quick if ctx.tier == "quick" else size_thorough
     versions = ["2.5"] if ctx.tier == "quick" else ["2.5", "2.3", "2.8"]
     failures = explore(ctx, focus, kinds, versions, [False, True], size)
